@@ -52,4 +52,11 @@ def resolve (ns : Option String) (name : String) : Res TypeSpecifier :=
   | none => ofExcept (newTypeSpecifierG toLowerCamel isValidElementType isValidResourceType name)
   | some n => ofExcept (newQualifiedTypeSpecifierG toLowerCamel isValidElementType isValidResourceType n name)
 
+/-- `VisitTypeSpecifier`: a type specifier is a dotted name of one part (looked up in FHIR, then in
+    System) or two parts (namespace and name); anything longer names no type -/
+def resolveParts : List String → Res TypeSpecifier
+  | [n] => resolve none n
+  | [ns, n] => resolve (some ns) n
+  | _ => .err "too many type qualifiers"
+
 end FP.Model
